@@ -16,13 +16,14 @@ import (
 )
 
 type caseResult struct {
-	c          *Case
-	obs        *Observed
-	an         *analysis
-	mismatches []lib.Mismatch
-	findings   []finding
-	stats      map[string]int
-	wbUntil    int
+	c            *Case
+	obs          *Observed
+	an           *analysis
+	mismatches   []lib.Mismatch
+	findings     []finding
+	stats        map[string]int
+	wbUntil      int
+	gethCompared int
 }
 
 var drvMu sync.Mutex
@@ -64,6 +65,9 @@ func evalCase(c *Case, drv *lib.Driver, guard bool) *caseResult {
 			break
 		}
 	}
+	if c.Geth {
+		checkGethLayer(cr, drv)
+	}
 	// feed: every value seen on the L1-head feed is one of the notified heads, in order
 	j := 0
 	for _, f := range cr.obs.Feed {
@@ -104,10 +108,129 @@ func evalCase(c *Case, drv *lib.Driver, guard bool) *caseResult {
 					c.Latest, c.Fin1, c.Fin2, c.Chunk, fh.String(), top.L2, top.L1)})
 		}
 	}
-	fs, wbUntil, stats := oracle(c, cr.an.sems)
+	sems := cr.an.sems
+	if c.Geth {
+		// the delivered stream is what the L1 NODE pushed; logs the forwarding layer swallowed are
+		// put back where they were delivered
+		sems = withSwallowed(sems, cr.obs.Emitted)
+	}
+	fs, wbUntil, stats := oracle(c, sems)
 	cr.findings = append(cr.findings, fs...)
 	cr.stats, cr.wbUntil = stats, wbUntil
 	return cr
+}
+
+func suLine(l Log) string {
+	rm := "0"
+	if l.Removed {
+		rm = "1"
+	}
+	return fmt.Sprintf("su %x %x %x %x %s", l.L2, l.Hash, l.Root, l.L1, rm)
+}
+
+// checkGethLayer: correspondence of the real geth forwarding layer with the model's
+// forwardStream — the forwarded stream must be, log by log and in order, the decoded stream the
+// node pushed (every Removed log included); eth_getLogs answers must come through unfiltered;
+// heights must be passed on unchanged.
+func checkGethLayer(cr *caseResult, drv *lib.Driver) {
+	c, o := cr.c, cr.obs
+	for _, p := range o.GethProblems {
+		cr.mismatches = append(cr.mismatches, lib.Mismatch{Sig: "geth-layer: " + p, Input: c})
+	}
+	lines := make([]string, len(o.Emitted))
+	for i, l := range o.Emitted {
+		root, number, hash := rawValues(l)
+		rm := "0"
+		if l.Removed {
+			rm = "1"
+		}
+		lines[i] = fmt.Sprintf("fwd %x %x %x %x %s", number, hash, root, l.L1, rm)
+	}
+	drvMu.Lock()
+	want, err := drv.AskAll(lines)
+	drvMu.Unlock()
+	if err != nil {
+		cr.mismatches = append(cr.mismatches, lib.Mismatch{Sig: "driver-error", Impl: err.Error()})
+		return
+	}
+	got := make([]string, len(o.Events))
+	for i, l := range o.Events {
+		got[i] = suLine(l)
+	}
+	cr.gethCompared = len(want)
+	if strings.Join(want, "|") != strings.Join(got, "|") {
+		cr.mismatches = append(cr.mismatches, lib.Mismatch{Sig: "geth-forwarded-stream-differs-from-node-stream",
+			Input: c, Model: want, Impl: got})
+	}
+	// catch-up queries
+	qi := 0
+	for _, m := range o.Marks {
+		if m.Kind != "filter" {
+			continue
+		}
+		var exp []string
+		for _, l := range c.Hist {
+			if m.From <= l.L1 && l.L1 <= m.To {
+				exp = append(exp, suLine(l.decoded()))
+			}
+		}
+		var have []string
+		if qi < len(o.FilterGot) {
+			for _, l := range o.FilterGot[qi] {
+				have = append(have, suLine(l))
+			}
+		}
+		qi++
+		cr.gethCompared++
+		if strings.Join(exp, "|") != strings.Join(have, "|") {
+			cr.mismatches = append(cr.mismatches, lib.Mismatch{Sig: "geth-filter-result-differs-from-node-logs",
+				Input: map[string]any{"case": c, "from": m.From, "to": m.To}, Model: exp, Impl: have})
+		}
+	}
+}
+
+// withSwallowed re-inserts, into the trace the client executed, the logs the node delivered but
+// the forwarding layer never handed to the client (directly after the log delivered before them).
+func withSwallowed(sems []sem, emitted []Log) []sem {
+	var out []sem
+	j := 0
+	lastLive := -1
+	for _, s := range sems {
+		if s.kind == "upd" && s.src == "live" {
+			k := j
+			for k < len(emitted) && emitted[k].decoded() != s.log {
+				k++
+			}
+			if k < len(emitted) {
+				for ; j < k; j++ {
+					out = append(out, sem{kind: "upd", log: emitted[j].decoded(), src: "live"})
+				}
+				j = k + 1
+			}
+			out = append(out, s)
+			lastLive = len(out) - 1
+			continue
+		}
+		out = append(out, s)
+	}
+	if j < len(emitted) {
+		var tail []sem
+		for ; j < len(emitted); j++ {
+			tail = append(tail, sem{kind: "upd", log: emitted[j].decoded(), src: "live"})
+		}
+		at := lastLive + 1
+		if lastLive < 0 {
+			// no live event reached the client: after the catch-up phase
+			at = 0
+			for i, s := range out {
+				if s.src == "catchup" {
+					at = i + 1
+				}
+			}
+		}
+		out = append(out[:at:at], append(tail, out[at:]...)...)
+	}
+	return out
 }
 
 func orStr(a, b string) string {
@@ -212,6 +335,13 @@ func main() {
 		cases = append(cases, leadL11())
 		cases = append(cases, enumCases(f.Scale(3, 4))...)
 		cases = append(cases, catchupGrid(r.Fork(1), f.Scale(400, 20000))...)
+		rg := r.Fork(4)
+		for i := 0; i < f.Scale(60, 1500); i++ {
+			cases = append(cases, gethDirected(rg.Fork(uint64(i)), fmt.Sprintf("geth-directed-%d", i)))
+		}
+		for i := 0; i < f.Scale(160, 6000); i++ {
+			cases = append(cases, genGethCase(rg.Fork(uint64(100000+i)), fmt.Sprintf("geth-%d", i)))
+		}
 		nChain, nFree := f.Scale(1200, 120000), f.Scale(500, 30000)
 		rc, rf := r.Fork(2), r.Fork(3)
 		for i := 0; i < nChain; i++ {
@@ -222,6 +352,15 @@ func main() {
 		}
 	}
 
+	if only := os.Getenv("C17_ONLY"); only != "" {
+		var sel []*Case
+		for _, c := range cases {
+			if strings.HasPrefix(c.Name, only) {
+				sel = append(sel, c)
+			}
+		}
+		cases = sel
+	}
 	results := make([]*caseResult, len(cases))
 	var wg sync.WaitGroup
 	idx := make(chan int)
@@ -313,7 +452,26 @@ func main() {
 				compared++
 			}
 		}
-		res.Compared(compared)
+		res.Compared(compared + cr.gethCompared)
+		if c.Geth {
+			res.HitN("geth:logs-through-real-forwarder", len(o.Events))
+			rem, reorgs := 0, 0
+			prevRem := false
+			for _, l := range o.Emitted {
+				if l.Removed {
+					rem++
+					if !prevRem {
+						reorgs++
+					}
+				}
+				prevRem = l.Removed
+			}
+			res.HitN("geth:removed-logs-through-real-forwarder", rem)
+			if reorgs >= 2 {
+				res.Hit("geth:several-reorgs-on-one-case")
+			}
+			res.HitN("geth:eth_getLogs-queries", len(o.FilterGot))
+		}
 		for _, m := range cr.mismatches {
 			res.Mismatch(m)
 		}
